@@ -167,6 +167,15 @@ Theorem C08_isodep_any_safe : forall k cmd, fix_wtx_try k = true -> fix_wtx_chai
 Proof. exact isodep_any_safe. Qed.
 Print Assumptions C08_isodep_any_safe.
 
+(* ... and with the budget of fixes/c08-19 (at most 65538 S(WTX) requests + chained response blocks per exchange) against
+   EVERY script of answers, unconditionally: S(WTX) for ever, chaining for ever, R(ACK) with either block number for ever,
+   R(NAK), empty or one byte frames - the exchange stops with a response or Type4TagCommandError *)
+Theorem C08_isodep_script_safe : forall k cmd, fix_wtx_try k = true -> fix_wtx_chain k = true -> fix_rack k = true ->
+  0 < miu k -> 0 <= n_nak k -> 0 <= n_ack k -> 0 < len cmd ->
+  forall pn script, goodr (fst (fst (dep_exchange k cmd pn script))).
+Proof. exact isodep_script_safe. Qed.
+Print Assumptions C08_isodep_script_safe.
+
 (* ================================================================ activation *)
 Theorem C08_dispatch_total : forall sens sel, len sens = 2 -> len sel = 1 -> exists k, tag_dispatch_a sens sel = Ok k.
 Proof. exact dispatch_total. Qed.
